@@ -433,6 +433,18 @@ def replay_ratio(ctx, rec, num, den, delta: Fraction, funit, cw, fp_hz):
                                                  'frequency_unit': funit, 'clockwise': cw,
                                                  'exc': repr(exc) if exc is not None else None}})
     ctx.case(nontrivial_id=('ph', num, den, str(delta), funit, cw) if delta != 0 or num % den and den % num else None)
+    # the same question through every other entry point that expands the disk over the pulses: "rejects frequencies
+    # that are neither" is a statement about the chopper, not about one method
+    from scippneutron.tof import chopper_cascade as cc
+
+    for api, fn in (('time_offset_close', lambda: disk.time_offset_close(pulse_frequency=pf)),
+                    ('open_duration', lambda: disk.open_duration(pulse_frequency=pf)),
+                    ('from_disk_chopper', lambda: cc.Chopper.from_disk_chopper(disk, pulse_frequency=pf, npulses=1 + (num + den) % 3))):
+        _, exc2 = _call(ctx, 'direct', None, fn)
+        rec.add({'ev': 'phase', 'num': num, 'den': den, 'band': band, 'accepted': exc2 is None},
+                {'api': api, 'desc': {'nominal_ratio': f'{num}/{den}', 'relative_deviation': str(delta),
+                                      'frequency_unit': funit, 'clockwise': cw,
+                                      'exc': repr(exc2) if exc2 is not None else None}})
 
 
 def _count_simulated(ctx, res):
@@ -648,7 +660,7 @@ def run(ctx):
         elif ev['ev'] == 'slits':
             key = f'DiskChopper(): {clause}'
         else:
-            key = f'time_offset_open: {clause}'
+            key = f'{inf.get("api", "time_offset_open")}: {clause}'
         if inf.get('again') and not inf.get('fixed_key'):
             key += ' [replayed later in the same process, in another order]'
         inf = {**inf, 'clause': clause}
